@@ -467,6 +467,11 @@ def run_case(case):
             continue
         else:
             continue
+        # an assigned value inside an instance that the edit discarded went with the instance (instances live as long
+        # as what their parameter formula was computed from)
+        for g in gone:
+            if g[1] is not None and not all(isinstance(x, str) for x in g[0]) and not (k == "set_value" and g == target):
+                rm.inputs.get((g[0], g[1]), {}).pop(g[2], None)
         out.count("edits")
         out.count("discarded", len(gone))
         if recalc and k == "set_value":
@@ -586,8 +591,13 @@ def check_recalc(real, rm, sim, target, gone, after, ticks, leaves):
         if e not in after:
             return ("recalc-lost", "%r should have been kept (not a dependent of %r) but is gone" % (e, target))
     # discarded leaf dependents are held again
+    # (an element inside an instance that the edit discarded does not exist until the instance is asked for again)
+    dead = [x for x in gone if x[1] is None]
+
+    def inside_discarded(g):
+        return any(g[0][:len(d[0]) + 1] == d[0] + (d[2],) for d in dead)
     for g in leaves:
-        if g[1] is not None and g not in after:
+        if g[1] is not None and g not in after and not inside_discarded(g):
             return ("recalc-missing-leaf", "leaf dependent %r of %r was not recomputed at once" % (g, target))
     return None
 
